@@ -568,6 +568,10 @@ def gen_program(r, size=None):
   for _ in range(n):
     g.stmt(0, 0, ctx)
   src = "\n".join(g.out) + "\n"
+  if r.random() < .25:
+    tail, _ = tail_program(r, prefix=False, ending="")
+    g.f("tail-construct")
+    src += tail + "\n"
   q = r.random()
   if q < .04:
     g.f("no-trailing-newline"); src = src.rstrip("\n")
@@ -578,6 +582,114 @@ def gen_program(r, size=None):
   elif q < .13:
     g.f("leading-comment"); src = "#!/usr/bin/env python\n# -*- coding: utf-8 -*-\n" + src
   return src, g.feat
+
+
+# ---------------------------------------------------------------------------------------
+# programs that END in an error-producing construct.  "Every reported error carries a line inside the file" can
+# only fail at the end of the file, and lines that pytype ADJUSTS rather than copies from the opcode (implicit
+# `return None` -> end of the function, decorators, multi-line calls, directives) are where it can go wrong.
+
+RET_TYPES = ["int", "str", "typing.List[int]", "list[int]", "bool", "typing.Dict[str, int]", "'int'"]
+
+
+def _fall_off_bodies(ind):
+  """Bodies (lists of lines at indent `ind`) of a function that returns a value on some path and falls off the end."""
+  i = "    " * ind
+  return {
+      "if-no-else": [f"{i}if x:", f"{i}    return 1"],
+      "if-elif": [f"{i}if x:", f"{i}    return 1", f"{i}elif x is None:", f"{i}    return 2"],
+      "for": [f"{i}for y in x:", f"{i}    return y"],
+      "while": [f"{i}while x:", f"{i}    return 1"],
+      "try": [f"{i}try:", f"{i}    return int(x)", f"{i}except ValueError:", f"{i}    pass"],
+      "try-finally": [f"{i}try:", f"{i}    if x:", f"{i}        return 1", f"{i}finally:", f"{i}    print(x)"],
+      "with": [f"{i}with x as y:", f"{i}    if y:", f"{i}        return 1"],
+      "match": [f"{i}match x:", f"{i}    case 1:", f"{i}        return 1", f"{i}    case [a, *b]:", f"{i}        return 2"],
+      "multi-line-last-stmt": [f"{i}if x:", f"{i}    return 1", f"{i}print(x,", f"{i}      x,", f"{i}      x)"],
+      "pass": [f"{i}pass"],
+      "docstring-only": [f'{i}"""Doc."""'],
+  }
+
+
+def tail_templates():
+  """{name: source without a final newline}; every one ends in a construct pytype reports an error for."""
+  out = {}
+  for k, body in _fall_off_bodies(1).items():
+    out["func:" + k] = "\n".join(["import typing", "def f(x) -> RET:"] + body)
+  b = _fall_off_bodies
+  out["async-func"] = "\n".join(["import typing", "async def f(x) -> RET:"] + b(1)["if-no-else"])
+  out["nested-func"] = "\n".join(["import typing", "def outer(x):", "    def inner(x) -> RET:"] + b(2)["if-no-else"])
+  out["nested-func-then-return"] = "\n".join(["import typing", "def outer(x) -> RET:", "    def inner(x) -> RET:"] + b(2)["for"])
+  out["method"] = "\n".join(["import typing", "class C:", "    def __init__(self):", "        self.items = []",
+                             "    def m(self, x) -> RET:"] + b(2)["if-no-else"])
+  out["method-nested-class"] = "\n".join(["import typing", "class C:", "    class D:", "        def m(self, x) -> RET:"] + b(3)["try"])
+  out["staticmethod"] = "\n".join(["import typing", "class C:", "    @staticmethod", "    def m(x) -> RET:"] + b(2)["match"])
+  out["property"] = "\n".join(["import typing", "class C:", "    @property", "    def p(self) -> RET:", "        x = self",
+                               ] + b(2)["while"])
+  out["decorated-func"] = "\n".join(["import typing", "def deco(f):", "    return f", "@deco", "@deco", "def f(x) -> RET:"] + b(1)["if-no-else"])
+  out["decorator-call-multi-line"] = "\n".join(["import typing", "def deco(a, b):", "    return lambda f: f", "@deco(1,", "      2)",
+                                                "def f(x) -> RET:"] + b(1)["for"])
+  out["generator-annotated"] = "\n".join(["import typing", "def f(x) -> RET:", "    yield 1"])
+  out["lambda-default-func"] = "\n".join(["import typing", "def f(x, g=lambda: 0) -> RET:"] + b(1)["with"])
+  out["type-comment-func"] = "\n".join(["import typing", "def f(x):", "    # type: (int) -> RET"] + b(1)["if-no-else"])
+  out["one-line-def"] = "import typing\ndef f(x) -> RET: pass"
+  out["bad-return-last-line"] = "import typing\ndef f(x) -> RET:\n    return None"
+  out["bad-return-multi-line"] = "import typing\ndef f(x) -> RET:\n    return (None if x\n            else\n            None)"
+  # other errors that sit on / are adjusted to the last lines
+  out["name-error-last-line"] = "x = 1\nundefined_name"
+  out["wrong-arg-count-multi-line-call"] = "def f(a):\n    return a\nf(1,\n  2,\n  3)"
+  out["wrong-arg-types-multi-line-call"] = "def f(a: int):\n    return a\nf(\n  'a'\n)"
+  out["attribute-error-multi-line"] = "x = (1\n     ).foo"
+  out["unsupported-operands-multi-line"] = "x = (1 +\n     'a' +\n     2)"
+  out["bad-decorator-last"] = "@undefined_deco\ndef f():\n    pass"
+  out["bad-class-decorator-last"] = "@undefined_deco(1,\n                2)\nclass C:\n    x: int = 'a'"
+  out["class-body-error-last"] = "class C:\n    x: int = 'a'"
+  out["base-class-error-last"] = "class C(1):\n    pass"
+  out["invalid-directive-last"] = "x = 1  # pytype: disable=no-such-error"
+  out["late-directive-last"] = "x = 1\n# pytype: disable=attribute-error"
+  out["stray-type-comment-last"] = "x = 1\n# type: int"
+  out["type-comment-mismatch-last"] = "x = 'a'  # type: int"
+  out["reveal-type-multi-line"] = "reveal_type(\n    1\n)"
+  out["assert-type-last"] = "assert_type(1,\n            str)"
+  out["annotation-mismatch-multi-line"] = "x: int = (\n    'a'\n)"
+  out["bad-unpacking-last"] = "a, b = (1,\n        2,\n        3)"
+  out["not-callable-in-with-last"] = "with 1():\n    pass"
+  out["for-else-error-last"] = "for i in 1:\n    pass\nelse:\n    i.foo"
+  out["try-finally-error-last"] = "try:\n    pass\nfinally:\n    (1).foo"
+  out["match-error-last"] = "match 1:\n    case int():\n        (1).foo"
+  out["incomplete-match-last"] = ("import enum\n" if False else "") + "def f(x: bool):\n    match x:\n        case True:\n            return 1"
+  out["lambda-error-last"] = "f = lambda: (1).foo\nf()"
+  out["comprehension-error-last"] = "x = [i.foo\n     for i in (1, 2)]"
+  out["fstring-error-last"] = "x = f'{(1).foo}'"
+  out["del-error-last"] = "del undefined_name"
+  out["assert-error-last"] = "assert (1).foo, (\n    'msg')"
+  out["raise-error-last"] = "raise (1).foo"
+  out["global-func-error-last"] = "def f():\n    global g\n    g = (1).foo"
+  return out
+
+
+TAIL_ENDINGS = ["", "\n", "\n\n\n", "\n# trailing comment\n", "\n    # indented trailing comment", "\n\n# c1\n# c2\n", "  # noqa", "\r\n"]
+
+
+def tail_program(r, name=None, ending=None, prefix=True):
+  """(source, label): a template instance, optionally after a few random statements, with a chosen file ending."""
+  t = tail_templates()
+  name = name or r.choice(sorted(t))
+  src = t[name].replace("RET", r.choice(RET_TYPES))
+  if prefix and r.random() < .4:
+    g = Gen(r)
+    for _ in range(r.randint(1, 2)):
+      g.stmt(0, 2, {"func": False})
+    head = "\n".join(g.out) + "\n"
+    try:
+      compile(head, "head", "exec")
+    except (SyntaxError, ValueError):
+      head = ""
+    if "import typing" in src and "import typing" not in head:
+      src = head + src
+    else:
+      src = head + src
+  ending = r.choice(TAIL_ENDINGS) if ending is None else ending
+  return src + ending, f"{name}|{ending!r}"
 
 
 # ---------------------------------------------------------------------------------------
